@@ -75,37 +75,48 @@ NumTok(t) ==
   ELSE LET p == CHOOSE i \in dots : TRUE IN
        TFlt(ToDigits(SubSeq(t, 1, p - 1)), ToDigits(SubSeq(t, p + 1, Len(t))))
 
-RECURSIVE Scan(_, _, _)
-(* the scanner loop: position p (1-based), tokens so far; result [ok, toks] *)
-Scan(s, p, toks) ==
-  IF p > Len(s) THEN [ok |-> TRUE, toks |-> toks]
-  ELSE LET c == s[p] IN
+(* One iteration of the scanner loop at position p (1-based, p <= Len(s)):                     *)
+(*   [st |-> "tok", np, tok]  a token was produced, continue at np                            *)
+(*   [st |-> "skip", np]      whitespace                                                      *)
+(*   [st |-> "err"]           the tokeniser returns an error                                  *)
+StTok(np, tok) == [st |-> "tok", np |-> np, tok |-> tok]
+StSkip(np) == [st |-> "skip", np |-> np, tok |-> TLp]
+StErr == [st |-> "err", np |-> 0, tok |-> TLp]
+Step(s, p) ==
+  LET c == s[p] IN
     IF c = 46 \/ c = 45 \/ IsDigit(c)
     THEN LET q == SpanWhile(s, p, "num") tok == NumTok(SubSeq(s, p, q - 1)) IN
-         IF tok.k = "err" THEN [ok |-> FALSE, toks |-> toks] ELSE Scan(s, q, Append(toks, tok))
+         IF tok.k = "err" THEN StErr ELSE StTok(q, tok)
     ELSE IF IsAsciiLetter(c) \/ c = 35
-    THEN IF Ahead(s, p, KW_FLT) THEN Scan(s, p + 3, Append(toks, TMod("flt")))
-         ELSE IF Ahead(s, p, KW_INT) THEN Scan(s, p + 3, Append(toks, TMod("int")))
-         ELSE IF Ahead(s, p, KW_STRING) THEN Scan(s, p + 6, Append(toks, TMod("str")))
-         ELSE IF Ahead(s, p, KW_STR) THEN Scan(s, p + 3, Append(toks, TMod("str")))
-         ELSE IF Ahead(s, p, KW_AND) THEN Scan(s, p + 3, Append(toks, TOp("and")))
-         ELSE IF Ahead(s, p, KW_OR) THEN Scan(s, p + 2, Append(toks, TOp("or")))
-         ELSE IF Ahead(s, p, KW_NOT) THEN Scan(s, p + 3, Append(toks, TNot))
-         ELSE IF Ahead(s, p, KW_NOTP) THEN Scan(s, p + 3, Append(toks, TMod("not")))
-         ELSE IF Ahead(s, p, KW_ALL) THEN Scan(s, p + 3, Append(toks, TMatch("all")))
-         ELSE IF Ahead(s, p, KW_OF) THEN Scan(s, p + 2, Append(toks, TMatch("of")))
-         ELSE LET q == SpanWhile(s, p, "id") IN Scan(s, q, Append(toks, TId(SubSeq(s, p, q - 1))))
-    ELSE IF IsSpace(c) THEN Scan(s, p + 1, toks)
-    ELSE IF c = 61 THEN IF p + 1 <= Len(s) /\ s[p + 1] = 61 THEN Scan(s, p + 2, Append(toks, TOp("eq")))
-                        ELSE [ok |-> FALSE, toks |-> toks]
-    ELSE IF c = 60 THEN IF p + 1 <= Len(s) /\ s[p + 1] = 61 THEN Scan(s, p + 2, Append(toks, TOp("le")))
-                        ELSE Scan(s, p + 1, Append(toks, TOp("lt")))
-    ELSE IF c = 62 THEN IF p + 1 <= Len(s) /\ s[p + 1] = 61 THEN Scan(s, p + 2, Append(toks, TOp("ge")))
-                        ELSE Scan(s, p + 1, Append(toks, TOp("gt")))
-    ELSE IF c = 44 THEN Scan(s, p + 1, Append(toks, TComma))
-    ELSE IF c = 40 THEN Scan(s, p + 1, Append(toks, TLp))
-    ELSE IF c = 41 THEN Scan(s, p + 1, Append(toks, TRp))
-    ELSE [ok |-> FALSE, toks |-> toks]
+    THEN IF Ahead(s, p, KW_FLT) THEN StTok(p + 3, TMod("flt"))
+         ELSE IF Ahead(s, p, KW_INT) THEN StTok(p + 3, TMod("int"))
+         ELSE IF Ahead(s, p, KW_STRING) THEN StTok(p + 6, TMod("str"))
+         ELSE IF Ahead(s, p, KW_STR) THEN StTok(p + 3, TMod("str"))
+         ELSE IF Ahead(s, p, KW_AND) THEN StTok(p + 3, TOp("and"))
+         ELSE IF Ahead(s, p, KW_OR) THEN StTok(p + 2, TOp("or"))
+         ELSE IF Ahead(s, p, KW_NOT) THEN StTok(p + 3, TNot)
+         ELSE IF Ahead(s, p, KW_NOTP) THEN StTok(p + 3, TMod("not"))
+         ELSE IF Ahead(s, p, KW_ALL) THEN StTok(p + 3, TMatch("all"))
+         ELSE IF Ahead(s, p, KW_OF) THEN StTok(p + 2, TMatch("of"))
+         ELSE LET q == SpanWhile(s, p, "id") IN StTok(q, TId(SubSeq(s, p, q - 1)))
+    ELSE IF IsSpace(c) THEN StSkip(p + 1)
+    ELSE IF c = 61 THEN IF p + 1 <= Len(s) /\ s[p + 1] = 61 THEN StTok(p + 2, TOp("eq")) ELSE StErr
+    ELSE IF c = 60 THEN IF p + 1 <= Len(s) /\ s[p + 1] = 61 THEN StTok(p + 2, TOp("le"))
+                        ELSE StTok(p + 1, TOp("lt"))
+    ELSE IF c = 62 THEN IF p + 1 <= Len(s) /\ s[p + 1] = 61 THEN StTok(p + 2, TOp("ge"))
+                        ELSE StTok(p + 1, TOp("gt"))
+    ELSE IF c = 44 THEN StTok(p + 1, TComma)
+    ELSE IF c = 40 THEN StTok(p + 1, TLp)
+    ELSE IF c = 41 THEN StTok(p + 1, TRp)
+    ELSE StErr
+
+RECURSIVE Scan(_, _, _)
+(* the scanner loop: position p, tokens so far; result [ok, toks] *)
+Scan(s, p, toks) ==
+  IF p > Len(s) THEN [ok |-> TRUE, toks |-> toks]
+  ELSE LET r == Step(s, p) IN
+       IF r.st = "err" THEN [ok |-> FALSE, toks |-> toks]
+       ELSE Scan(s, r.np, IF r.st = "tok" THEN Append(toks, r.tok) ELSE toks)
 
 Tokenise(s) == Scan(s, 1, <<>>)
 
